@@ -32,7 +32,9 @@ class Recorder(BoboDeciderSubscriber):
         # snapshot the lists: the decider may edit them later
         self.notifs.append((list(completed), list(halted), list(updated), local))
         # text of every published record at publication time (C12: published snapshots never change)
-        self.published.append([(r, r.to_json_str()) for r in list(completed) + list(halted) + list(updated)])
+        # (only where the events have a JSON text: see predlang.Num)
+        if not pl.OPAQUE['on']:
+            self.published.append([(r, r.to_json_str()) for r in list(completed) + list(halted) + list(updated)])
 
 
 class RealDecider:
